@@ -3,8 +3,11 @@ module verifharness
 go 1.15
 
 require (
+	github.com/TheCacophonyProject/go-config v1.6.4
 	github.com/TheCacophonyProject/go-cptv v0.0.0-20211109233846-8c32a5d161f7
+	github.com/TheCacophonyProject/lepton3 v0.0.0-20210324024142-003e5546e30f
 	github.com/TheCacophonyProject/thermal-recorder v0.0.0
+	github.com/TheCacophonyProject/window v0.0.0-20200312071457-7fc8799fdce7
 )
 
 replace github.com/TheCacophonyProject/thermal-recorder => /repo
